@@ -1,11 +1,1 @@
-use crate::*;
-fn shape(san: &'static [u8], oracles: u32) -> cert::CertShape { cert::CertShape { issuance: 0, aki: false, san, ku: 0, eku: &[], nc: 0, nc_perm: &[], nc_excl: &[], crl_dps: &[], is_ca: 0, custom: 0, serial: 2, serial_b0: 1, kid: 0, kid_len: 2, ikid: 0, ikid_len: 3, strlen: 2, alg: 5, ialg: 5, sign_fails: false, oracles } }
-#[kani::proof] #[kani::unwind(40)]
-#[kani::stub(std::hash::RandomState::new, env::random_state_stub)]
-pub fn s2() { cert::run(&shape(&[1], 2)); }
-#[kani::proof] #[kani::unwind(40)]
-#[kani::stub(std::hash::RandomState::new, env::random_state_stub)]
-pub fn s8() { cert::run(&shape(&[1], 8)); }
-#[kani::proof] #[kani::unwind(700)]
-#[kani::stub(std::hash::RandomState::new, env::random_state_stub)]
-pub fn s31() { cert::run(&shape(&[1], 31)); }
+// placeholder: /verif/check overwrites this file in its scratch copy of the crate.
